@@ -886,6 +886,10 @@ func (x *exec) finish(st *State, out Outcome) {
 	}
 	st.frames = append(st.frames, &Frame{fn: x.topFn, env: map[ssa.Value]Val{}, names: map[string]Val{}})
 	se := &specEnv{x: x, pkg: x.specPkg(ct), vars: vars, st: st, cur: st, old: x.entry, nq: &nq, what: "ensures of " + x.ctx.Key}
+	if out.Fr != nil {
+		// local variables of the function (their values at this return) may be named in ensures
+		se.frame = out.Fr
+	}
 	for _, e := range ct.Ensures {
 		se.what = "ensures " + e.Label + " of " + x.ctx.Key
 		x.oblige(st, "ensures", e.Label, "", se.evalBool(e.Expr), pos)
